@@ -223,6 +223,7 @@ def _operators(ctx: Ctx, c: Collector) -> None:
         s = ctx.summ(qn)
         me, other = T.var(fi.params[0]), T.var(fi.params[1])
         isinst = call(T.glob("isinstance"), other, T.glob(OUTSET))
+        isinst_me = call(T.glob("isinstance"), me, T.glob(OUTSET))        # always true in a method of OutSet (a shared case-table helper tests both operands)
         reflected = name.startswith("__r")
         branches = [False] if reflected else [True, False]
         for other_is_outset in branches:
@@ -230,7 +231,7 @@ def _operators(ctx: Ctx, c: Collector) -> None:
             rets = []
             for r in s.returns:
                 try:
-                    if boolfn.guards_hold_leaves(r.guards, {isinst: other_is_outset}):
+                    if boolfn.guards_hold_leaves(r.guards, {isinst: other_is_outset, isinst_me: True}):
                         rets.append(r)
                 except boolfn.NotBoolean:
                     rets = None
@@ -258,7 +259,7 @@ def _operators(ctx: Ctx, c: Collector) -> None:
                         env[other] = ("fin", om)
                         other_has = om
                     env[me] = ("cofin", self_has)
-                    kind, got = _member(boolfn.resolve_phi(_inline_methods(ctx, r.term, me), {isinst: other_is_outset}), env)
+                    kind, got = _member(boolfn.resolve_phi(_inline_methods(ctx, r.term, me), {isinst: other_is_outset, isinst_me: True}), env)
                     want = meaning(self_has, other_has)
                     want_kind = {"__sub__": "cofin" if not other_is_outset else "fin", "__rsub__": "fin", "__and__": "cofin" if other_is_outset else "fin",
                                  "__rand__": "fin", "__or__": "cofin", "__ror__": "cofin"}[name]
